@@ -6,7 +6,7 @@ import re._constants as C
 
 from ..model import AnalysisError, norm
 from ..pyeval import Obj, Unsupported
-from .c03 import interp, bracket, esc, RX
+from .c03 import interp, bracket, esc, klass, RX
 
 
 def check(run):
@@ -23,6 +23,12 @@ def check(run):
             o.rule = 'C13-ESC'
     run.floors = [(('C13-ESC' if r == 'C03-ESC' else r), c, m) for r, c, m in run.floors]
     bracket(run, p, I, flags, 'C13')
+    klass(run, p, I, flags)
+    run.rules['C13-CLASS'] = run.rules.pop('C03-CLASS') + ' (an expression built from a class that does not contain its characters matches none of its examples)'
+    for o in run.obs:
+        if o.rule == 'C03-CLASS':
+            o.rule = 'C13-CLASS'
+    run.floors = [(('C13-CLASS' if r == 'C03-CLASS' else r), c, m) for r, c, m in run.floors]
 
 
 def anchor(run, p):
